@@ -338,6 +338,57 @@ def codec_same_name_task(payload):
         build.drop_module(mod)
 
 
+SELFCODEC_SRC = '''
+from mashumaro.codecs.basic import BasicDecoder, BasicEncoder
+from mashumaro.codecs.msgpack import MessagePackDecoder, MessagePackEncoder
+@dataclass
+class PNode:
+    v: int = 0
+    children: List["PNode"] = field(default_factory=list)
+    nxt: Optional["PNode"] = None
+@dataclass
+class MNode(DataClassDictMixin):
+    v: int = 0
+    children: List["MNode"] = field(default_factory=list)
+    nxt: Optional["MNode"] = None
+'''
+
+
+def codec_selfref_task(payload):
+    """a plain dataclass that refers to itself, given to the codecs: they build, every generated function is closed, and
+    encode / decode agree with the mixin twin of the same shape (bounded sample)"""
+    pid = payload[0]
+    src = g4.PRELUDE + SELFCODEC_SRC
+    try:
+        mod, recs0 = build.build_module(src)
+    except Exception as e:
+        return {"obligations": [dict(id=f"{pid}.G9[codec_selfref]/builds", status="refuted", detail=f"{type(e).__name__}: {e}"[:300], witness={"confirmed": True, "source": src, "why": str(e)[:200]})]}
+    try:
+        probs, closed = [], []
+        n0 = len(harvest.RECORDER.records)
+        pv = mod.PNode(1, [mod.PNode(2, [], mod.PNode(3))], None)
+        mv = mod.MNode(1, [mod.MNode(2, [], mod.MNode(3))], None)
+        want = mv.to_dict()
+        for encn, decn in (("BasicEncoder", "BasicDecoder"), ("MessagePackEncoder", "MessagePackDecoder")):
+            try:
+                enc, dec = getattr(mod, encn)(mod.PNode), getattr(mod, decn)(mod.PNode)
+                out = enc.encode(pv)
+                if encn == "BasicEncoder" and out != want:
+                    probs.append(f"{encn}(PNode).encode(..) = {out!r}, the mixin twin gives {want!r}")
+                if dec.decode(out) != pv:
+                    probs.append(f"{decn}(PNode).decode(encode(v)) != v")
+            except Exception as e:  # noqa
+                probs.append(f"{encn}/{decn}(PNode) raised {type(e).__name__}: {str(e)[:140]}")
+        for r in harvest.RECORDER.records[n0:]:
+            closed += units.closedness_problems(r)
+        w = {"confirmed": True, "source": src, "input": "PNode(1, [PNode(2, [], PNode(3))])", "why": probs[0]} if probs else None
+        return {"obligations": [dict(id=f"{pid}.G9[codec_selfref]/closed", status="proved" if not closed else "refuted", detail="; ".join(closed)[:500]),
+                                dict(id=f"{pid}.H9[codec_selfref]/agrees_with_mixin", status="proved" if not probs else "refuted", bounded=True, unit="codec calls on one value (bounded)",
+                                     detail="; ".join(probs)[:600], witness=w)]}
+    finally:
+        build.drop_module(mod)
+
+
 ENGINE_SRC = '''
 class NTdt(NamedTuple):
     when: datetime.date
